@@ -276,6 +276,31 @@ class Interp:
         def type_(x):
             return typeof(x.force())
 
+        def map_(f, arr):
+            f, arr = f.force(), arr.force()
+            if not isinstance(f, VFn) or not isinstance(arr, VArr):
+                raise JErr("map types")
+            return VArr([LazyFn(lambda t=t: it.call(f, [t], [])) for t in arr.items])
+
+        def map_with_index(f, arr):
+            f, arr = f.force(), arr.force()
+            if not isinstance(f, VFn) or not isinstance(arr, VArr):
+                raise JErr("mapWithIndex types")
+            return VArr([LazyFn(lambda i=i, t=t: it.call(f, [Thunk.ready(float(i)), t], [])) for i, t in enumerate(arr.items)])
+
+        def filter_(f, arr):
+            f, arr = f.force(), arr.force()
+            if not isinstance(f, VFn) or not isinstance(arr, VArr):
+                raise JErr("filter types")
+            out = []
+            for t in arr.items:
+                k = it.call(f, [t], [])
+                if not isinstance(k, bool):
+                    raise JErr("filter predicate not boolean")
+                if k:
+                    out.append(t)
+            return VArr(out)
+
         fields = {
             "length": b("length", ["x"], length), "trace": b("trace", ["str", "rest"], trace),
             "extVar": b("extVar", ["x"], ext_var), "type": b("type", ["x"], type_),
@@ -285,6 +310,8 @@ class Interp:
             "objectHasAll": b("objectHasAll", ["o", "f"], obj_has(True)),
             "objectRemoveKey": b("objectRemoveKey", ["obj", "key"], remove_key),
             "makeArray": b("makeArray", ["sz", "func"], make_array),
+            "map": b("map", ["func", "arr"], map_), "mapWithIndex": b("mapWithIndex", ["func", "arr"], map_with_index),
+            "filter": b("filter", ["func", "arr"], filter_),
         }
         L = Layer({}, True)
         o = VObj([L])
@@ -344,7 +371,9 @@ class Interp:
         # object-level locals are desugared into every member that can see them, so each
         # field / assertion gets its own copies (the upper bound on evaluations the
         # specification allows)
-        key = (i, id(env_override) if env_override is not None else 0, who)
+        # (the strict reading of "a local binding is evaluated at most once": one set of
+        # object-level locals per object instance and layer, shared by its fields and asserts)
+        key = (i, id(env_override) if env_override is not None else 0)
         env = o.local_envs.get(key)
         if env is not None:
             return env
